@@ -207,7 +207,7 @@ pub fn h_just_seq2<M: VMode>() {
         let s = snap(inp);
         let alt = alt_full(inp);
         let t0 = if s0.pos < s0.len { Some(inp.cache.tok_at(s0.pos)) } else { None };
-        let t1 = if s0.pos < s0.len && s0.pos + 1 < s0.len { Some(inp.cache.tok_at(s0.pos + 1)) } else { None };
+        let t1 = if s0.pos < s0.len && 1 < s0.len - s0.pos { Some(inp.cache.tok_at(s0.pos + 1)) } else { None };
         let m0 = t0 == Some(pat[0]);
         let m1 = t1 == Some(pat[1]);
         vassert!(r.is_ok() == (m0 && m1), "C01/just_seq.accepts-iff-every-token-of-the-pattern-matches-in-order");
